@@ -693,6 +693,31 @@ func c11Envs(thorough bool) (envs []c11Env, box string) {
 			}
 		})
 	})
+	if !thorough {
+		// quick: negative weights ("arbitrary weights") in a box of their own - rules of 2 and 3 plain keys, where a
+		// prefix of the signer list can reach the threshold that the whole member set misses
+		c11Subsets([]string{"A", "B", "C"}, 3, func(sub []string) {
+			if len(sub) < 2 {
+				return
+			}
+			c11Tenths([]int{-10, -4, 6, 10}, len(sub), func(w []int) {
+				neg := false
+				for _, x := range w {
+					neg = neg || x < 0
+				}
+				if !neg {
+					return
+				}
+				for _, acc := range []int{5, 10} {
+					r := c11Rule{Kind: "threshold", Accept: acc}
+					for i, nme := range sub {
+						r.M = append(r.M, c11Member{nme, w[i]})
+					}
+					withX2("acc", "account-threshold-negative-weight", r, nil)
+				}
+			})
+		})
+	}
 	for _, r := range c11KeySetRules([]string{"A", "B", "C"}) {
 		withX2("acc", "account-keysets", r, nil)
 	}
@@ -732,7 +757,7 @@ func c11Envs(thorough bool) (envs []c11Env, box string) {
 	for _, r := range c11KeySetRules([]string{"A", "B"}) {
 		withX2("method", "method-keysets", r, map[string]c11Rule{"acc": accV[1]})
 	}
-	box = fmt.Sprintf("account rules: no rule; threshold over <= 3 members of {A,B,C,X2} with weights %v/10 (3 members: %v/10) and accept value in %v/10; <= 2 non-empty key sets over {A,B,C}; nested account X2 with %d own rules (none, threshold, key sets); "+
+	box = fmt.Sprintf("account rules: no rule; threshold over <= 3 members of {A,B,C,X2} with weights %v/10 (3 members: %v/10) and accept value in %v/10 (quick: plus 2-3 keys of {A,B,C} with weights {-10,-4,6,10}/10, at least one negative, accept 5 or 10); <= 2 non-empty key sets over {A,B,C}; nested account X2 with %d own rules (none, threshold, key sets); "+
 		"method rules: no rule; threshold over members of {A,B,acc} with weights %v/10, acc with 5 own rules (one containing X2); <= 2 key sets over {A,B}", weights, weights3, accepts, len(x2v), mweights)
 	return envs, box
 }
